@@ -100,6 +100,37 @@ def units(w):
         st = c["err"].fields["stacktrace"]
         it.check("post:exactly-one-stack-trace-entry-added", isinstance(st, PList) and st.items is not None and len(st.items) == 1)
     U.append(Unit("nodes.py::invoke", s_invoke, p_invoke, config={"repr_mode": "opaque"}))
+
+    # ------------------------------------------------------------------ an undefined name is reported where the name stands
+    def s_ident(it):
+        ipos = V.pos(it, "identpos")
+        node = Obj(nodes["NodeIdentifier"], {"value": SStr(z3.String("name")), "pos": ipos})
+        return [node, real_env(w, it, {})], {}, {"ipos": ipos}
+
+    def p_ident(it, c, o):
+        it.check("raises:undefined-name-is-a-runtime-error-at-the-identifier's-own-position",
+                 o.kind == "raise" and o.exc_class == "CklRuntimeError" and o.exc.fields.get("pos") is c["ipos"])
+    U.append(Unit("nodes.py::NodeIdentifier.evaluate", s_ident, p_ident, name="nodes.py::NodeIdentifier.evaluate[undefined name]"))
+
+    def s_call_ident(it):
+        ipos, cpos = V.pos(it, "identpos"), V.pos(it, "callpos")
+        ident = Obj(nodes["NodeIdentifier"], {"value": SStr(z3.String("name")), "pos": ipos})
+        node = Obj(nodes["NodeFuncall"], {"func": ident, "names": PList([]), "args": PList([]), "pos": cpos})
+        return [node, real_env(w, it, {})], {}, {"ipos": ipos, "cpos": cpos}
+
+    def p_call_ident(it, c, o):
+        it.check("raises:an-undefined-callee-name-is-reported-at-the-name (not at the opening parenthesis of the call)",
+                 o.kind == "raise" and o.exc_class == "CklRuntimeError" and o.exc.fields.get("pos") is c["ipos"])
+    U.append(Unit("nodes.py::NodeFuncall.evaluate", s_call_ident, p_call_ident, name="nodes.py::NodeFuncall.evaluate[undefined callee name]"))
+
+    def s_call_nonfunc(it):
+        ipos, cpos = V.pos(it, "identpos"), V.pos(it, "callpos")
+        node = Obj(nodes["NodeFuncall"], {"func": S.node("callee", V.int(it, "notafunction")), "names": PList([]), "args": PList([]), "pos": cpos})
+        return [node, real_env(w, it, {})], {}, {"cpos": cpos}
+
+    def p_call_nonfunc(it, c, o):
+        it.check("raises:calling-a-non-function-is-reported-at-the-call", o.kind == "raise" and o.exc_class == "CklRuntimeError" and o.exc.fields.get("pos") is c["cpos"])
+    U.append(Unit("nodes.py::NodeFuncall.evaluate", s_call_nonfunc, p_call_nonfunc, name="nodes.py::NodeFuncall.evaluate[callee is not a function]"))
     return U
 
 
@@ -175,6 +206,11 @@ def bounded(tier, seed):
         (["1", "+", ";", "2"], 2, "syntax"),
         (["def", "a", "=", "1", ";", "while", "3", "do", "1", "end"], 5, "runtime"),
         (["def", "a", "=", "1", ";", "not", "5"], 5, "runtime"),
+        (["def", "a", "=", "1", ";", "missing_fn", "(", "a", ")"], 5, "runtime"),
+        (["def", "a", "=", "1", ";", "a", "!>", "missing_fn", "(", ")"], 7, "runtime"),
+        (["def", "a", "=", "1", ";", "[", "1", ",", "missing_name", ",", "3", "]"], 8, "runtime"),
+        (["def", "o", "=", "<*", "a", "=", "1", "*>", ";", "o", "->", "nope", "(", ")"], (10, 11, 12), "runtime"),
+        (["def", "a", "=", "1", ";", "a", "(", "2", ")"], (5, 6), "runtime"),
     ]
     rnd = random.Random(seed)
     nlay = 40 if tier == "thorough" else 12
